@@ -932,7 +932,8 @@ Lemma step_fresh now dbs dbi nm rest o : lfresh_all now dbs ->
 Proof. intros F. unfold step_dbs. rewrite pre_dbs_fresh by exact F. reflexivity. Qed.
 Lemma xout_fresh now dbs x : lfresh_all now dbs -> xout_recs now dbs x = dout_recs now dbs (x_db x) (x_parts x) (x_or x).
 Proof.
-  intros F. unfold xout_recs. destruct (x_parts x) as [|[] rest]; try reflexivity.
+  intros F. unfold xout_recs, xbase. rewrite (purge_dbs_fresh now dbs (x_db x) (x_purge x) F).
+  destruct (x_parts x) as [|[] rest]; try reflexivity.
   destruct (x_lazy x); [rewrite pre_dbs_fresh by exact F|]; reflexivity.
 Qed.
 Lemma out_recs_plain now d' name parts r : by_outcome name parts = false -> ttl_recorded name = false ->
@@ -1189,7 +1190,7 @@ Proof.
     destruct (logs_before (upper b) (FBulk b :: rest)) eqn:L; constructor; [|constructor].
     cbn [fst]. apply is_logged_write. exact L.
   - unfold xout_recs. destruct (x_parts x) as [|[] rest] eqn:Ep; try constructor.
-    generalize (if x_lazy x then pre_dbs t d (x_db x) (upper b) (FBulk b :: rest) else d). intros d0.
+    generalize (if x_lazy x then pre_dbs t (xbase t d x) (x_db x) (upper b) (FBulk b :: rest) else xbase t d x). intros d0.
     unfold dout_recs.
     repeat match goal with |- Forall _ (map _ (if ?c then _ else _)) => destruct c; [constructor|] end.
     destruct (exec_db _ _ _ _ _) as [[r d']|]; [|constructor].
@@ -1492,7 +1493,8 @@ Definition timed_history : list tev :=
    (3600005, EFrame 1 (cmd [bs "PEXPIREAT"; bs "s"; bs "99999999999"]) None);
    (3600006, EFrame 1 (cmd [bs "SPOP"; bs "nokey"]) None);
    (3600007, EFrame 1 (cmd [bs "XADD"; bs "x"; bs "*"; bs "g"; bs "w"]) (Some (FBulk (bs "3600007-0"))));
-   (3600007, EFrame 1 (cmd [bs "XADD"; bs "x"; bs "*"; bs "g"; bs "w"]) (Some (FBulk (bs "3600007-1"))))].
+   (3600007, EFrame 1 (cmd [bs "XADD"; bs "x"; bs "*"; bs "g"; bs "w"]) (Some (FBulk (bs "3600007-1"))));
+   (3600008, EFrame 1 (cmd [bs "WATCH"; bs "k"; bs "s"; bs "k"]) None)].
 Lemma timed_history_ok :
   forallb (fun te => ev_ok (snd te)) timed_history = true /\
   timed_run day (trace_of timed_history) dbs0 = true /\
